@@ -22,6 +22,7 @@ class C20(Spec):
     theorems = ["Nun.C20_executed_once_in_order", "Nun.C20_aligned", "Nun.C20_entry_count", "Nun.C20_session_released", "Nun.unwatch_removes"]
     rule = ("all bodies of 1-2 commands (quick; 1-3 thorough) from the quantifier's list (auth ok/bad, use-db ok/bad/user, get, get-safe, set, set-safe ok/stale, remove, increment ok/non-numeric, keys, "
             "create-db, refused for missing selection / permission / secure key, unknown, malformed) with and without a trailing ';' and with empty and whitespace-only blank statements in every position, plus seeded random bodies of up to 6 commands; "
+            "plus administrator bodies with a refused create-db (existing name, same / other token / other strategy) between commands that use the database; "
             "each body runs through the real http process_commands and, on an identical fresh server, command by command on an ordinary session: entry i must be command i's own error text, first pushed line, or `empty`. "
             "non-trivial = the body has a refused and an accepted command; distinct by trace hash")
 
@@ -48,6 +49,13 @@ class C20(Spec):
                     for bl in BLANKS:
                         parts = list(seq); parts.insert(pos, bl)
                         cases.append(self.case(seq, ";".join(parts)))
+        # a REFUSED command in the middle of an administrator's body (create-db of a database that exists, with the same or another
+        # token): the entries of the commands after it must be what they would be without it
+        for dup in ("create-db t tok", "create-db t other", "create-db t tok newer"):
+            for before in ([], ["use-db t tok"]):
+                for after in (["use-db t tok", "get k"], ["get k", "keys"], ["use-db t tok", "increment k", "get-safe k"], ["use-db t other", "get k"]):
+                    seq = ["auth adm pw"] + before + [dup] + after
+                    cases.append(self.case(seq, "; ".join(seq)))
         rng = core.XorShift(seed)
         for _ in range(600 if tier == "quick" else 20000):
             n = 1 + rng.below(6); seq = [rng.choice(CMDS) for _ in range(n)]
@@ -91,6 +99,15 @@ class C20(Spec):
             for i, (g, w) in enumerate(zip(got_entries, want)):
                 if g != w:
                     fails.append(Failure("entry-not-from-its-own-command", f"{http[0][:120]}: entry {i} is {g!r}, command {i} alone gives {w!r}")); break
+        # a refused command leaves no trace: in the command-by-command run the node's state is the same before and after it
+        prev = None
+        strip = lambda d: [x for x in d if not x.startswith("D sess ")]
+        for (inp, rest, dump) in runs[1]:
+            cur = prev if (not dump or dump == ["D ="]) else dump
+            if inp.startswith("C 7 ") and prev is not None and cur is not None and any(x.startswith("R error ") for x in rest) and strip(cur) != strip(prev):
+                diff = [x for x in strip(cur) if x not in strip(prev)][:2] + ["(gone:) " + x for x in strip(prev) if x not in strip(cur)][:2]
+                fails.append(Failure("refused-command-changed-the-node", f"{inp}: answered {[x for x in rest if x.startswith('R ')][0][:80]} and changed the node: {diff}")); break
+            prev = cur
         # release: no dangling watcher ('?' = a sender that belongs to no open session) and same counters as the reference run
         after = runs[0][-1][2]
         if any(re.match(r"D w \S+ \S+ .*\?", d) for d in after):
